@@ -39,7 +39,7 @@ Definition q_subs (q : query) := match q with MkQuery _ s _ _ => s end.
 Definition q_body (q : query) := match q with MkQuery _ _ b _ => b end.
 Definition q_locks (q : query) := match q with MkQuery _ _ _ l => l end.
 
-(** Statement::StartTransaction | Statement::Query | anything else (query_router.rs:520-609) *)
+(** Statement::StartTransaction | Statement::Query | anything else (query_router.rs:523-606) *)
 Inductive stmt := SStartTxn | SQuery (q : query) | SOther.
 
 (** query_router.rs:421-451 [is_mutation_query]: a sqlparser [Visitor] over the query and
@@ -62,7 +62,7 @@ with b_writes (b : body) : bool :=
 
 Definition is_mutation (q : query) : bool := q_writes q.
 
-(** query_router.rs:549-552: has_locks || has_mutation *)
+(** query_router.rs:548-551: has_locks || has_mutation *)
 Definition is_write_query (q : query) : bool := q_locks q || is_mutation q.
 
 (** ** Settings and per-session router state *)
@@ -90,11 +90,11 @@ Definition set_role (st : rstate) (r : option role) : rstate :=
 Definition init_state (cfg : settings) : rstate :=
   {| active_role := s_default_role cfg; o_parser := None; o_preads := None |}.
 
-(** query_router.rs:1296-1314 *)
+(** query_router.rs:1297-1315 *)
 Definition parser_on (cfg : settings) (st : rstate) : bool :=
   match o_parser st with Some b => b | None => s_parser cfg end.
 
-(** query_router.rs:1316-1321 *)
+(** query_router.rs:1317-1322 *)
 Definition preads_on (cfg : settings) (st : rstate) : bool :=
   match o_preads st with Some b => b | None => s_primary_reads cfg end.
 
@@ -116,20 +116,20 @@ Definition exec_role_cmd (cfg : settings) (st : rstate) (c : cmd) : rstate :=
   | SetPrimaryReads PDefault => {| active_role := active_role st; o_parser := o_parser st; o_preads := None |}
   end.
 
-(** ** infer (query_router.rs:489-617)
+(** ** infer (query_router.rs:489-616)
 
     db_activity_based_routing reads two process-global, time-dependent moka caches.  They
     are oracle inputs: [a_init] = "routing by activity is on and the database is in state
-    Initializing" (507-517), [a_hot i] = "routing by activity is on and the i-th statement
-    is a Query touching a table in the mutation cache" (533-542).  [quiet] = feature off.
+    Initializing" (509-520), [a_hot i] = "routing by activity is on and the i-th statement
+    is a Query touching a table in the mutation cache" (537-546).  [quiet] = feature off.
 
     Shard inference (automatic_sharding_key) does not influence the role any more: a shard
-    error is only recorded and returned at the end (505-506, 561-573, 590-604, 612-615).  It
+    error is only recorded and returned at the end (505-507, 564-577, 592-606, 612-615).  It
     is not modelled here (C06); the error flag below is the "empty query" error only. *)
 Record activity := { a_init : bool; a_hot : nat -> bool }.
 Definition quiet : activity := {| a_init := false; a_hot := fun _ => false |}.
 
-(** 555-560: the role a plain read gets *)
+(** 557-560: the role a plain read gets *)
 Definition read_role (cfg : settings) (st : rstate) : option role :=
   if preads_on cfg st then None else Some Replica.
 
@@ -139,18 +139,18 @@ Fixpoint infer_loop (cfg : settings) (act : activity) (i : nat) (pin visited : b
          (st : rstate) (ss : list stmt) : rstate :=
   match ss with
   | [] => st
-  | SStartTxn :: _ => set_role st (Some Primary)                          (* 521-524: break *)
+  | SStartTxn :: _ => set_role st (Some Primary)                          (* 525-528: break *)
   | SQuery q :: rest =>
-      if pin then infer_loop cfg act (S i) pin visited st rest            (* 528-531: continue *)
+      if pin then infer_loop cfg act (S i) pin visited st rest            (* 532-535: continue *)
       else if a_hot act i
-      then infer_loop cfg act (S i) true visited (set_role st (Some Primary)) rest   (* 533-542 *)
+      then infer_loop cfg act (S i) true visited (set_role st (Some Primary)) rest   (* 537-546 *)
       else if is_write_query q
-      then infer_loop cfg act (S i) pin true (set_role st (Some Primary)) rest      (* 552-555 *)
+      then infer_loop cfg act (S i) pin true (set_role st (Some Primary)) rest      (* 551-554 *)
       else if visited
-      then infer_loop cfg act (S i) pin visited st rest                              (* 556 *)
-      else infer_loop cfg act (S i) pin visited (set_role st (read_role cfg st)) rest (* 557-560 *)
+      then infer_loop cfg act (S i) pin visited st rest                              (* 555 *)
+      else infer_loop cfg act (S i) pin visited (set_role st (read_role cfg st)) rest (* 556-561 *)
   | SOther :: rest =>
-      infer_loop cfg act (S i) pin true (set_role st (Some Primary)) rest (* 578-588 *)
+      infer_loop cfg act (S i) pin true (set_role st (Some Primary)) rest (* 581-590 *)
   end.
 
 (** Result: new state and [true] iff Err("empty query").  NB: active_role is not reset at
